@@ -250,6 +250,18 @@ impl Worker {
 				}
 				_ => "RSkipped".into(),
 			},
+			Op::FmtFail(c, tag) => match self.dc(*c) {
+				Some(d) => {
+					view::FAIL_TAG.with(|x| x.set(Some(*tag)));
+					let r = catch_unwind(AssertUnwindSafe(|| d.fmt_debug()));
+					view::FAIL_TAG.with(|x| x.set(None));
+					match r {
+						Ok(_) => "ROk".into(),
+						Err(e) => classify(e).into(),
+					}
+				}
+				None => "RSkipped".into(),
+			},
 			Op::Fmt(c) => match self.dc(*c) {
 				Some(d) => match catch_unwind(AssertUnwindSafe(|| d.fmt_debug())) {
 					Ok(s) => format!("RN {}", s.matches("<locked>").count()),
@@ -348,6 +360,27 @@ fn run_seq(sc: &Scen, world: &scen::World, out: &mut impl Write) {
 		writeln!(out, "obs mkco {} ({}) [{}] {} {} {}", t, rc, evs, holds, psn_show(world), keyfree).unwrap();
 		if stopped {
 			break;
+		}
+	}
+	// probes: operations without a counterpart in the model's vocabulary, judged on what the implementation does
+	if !ctl().stopped {
+		for (t, op) in &sc.probes {
+			let Some((ctx, rrx)) = chans.get(t) else { continue };
+			let before = {
+				let mut c = ctl();
+				c.take_events();
+				c.holds_show()
+			};
+			ctx.send(Cmd::Do(op.clone())).unwrap();
+			let (rc, _) = rrx.recv().expect("worker died");
+			let (evs, after, stopped) = {
+				let mut c = ctl();
+				(c.take_events(), c.holds_show(), c.stopped)
+			};
+			writeln!(out, "pobs ({}) [{}] {} {}", rc, evs, before, after).unwrap();
+			if stopped {
+				break;
+			}
 		}
 	}
 	for (_, (ctx, _)) in chans.iter() {
